@@ -2006,7 +2006,7 @@ mod type_parser {
       }
       TokenContent::UpperId(name) => {
         associated_comments.append(&mut parser.consume());
-        let associated_comments = parser.comments_store.create_comment_reference(Vec::new());
+        let associated_comments = parser.comments_store.create_comment_reference(associated_comments);
         let id_annot =
           parse_identifier_annot(parser, Id { loc: peeked.0, associated_comments, name });
         if id_annot.type_arguments.is_none() && parser.available_tparams.contains(&id_annot.id.name)
